@@ -944,6 +944,15 @@ def p3_inexact(ctx: Ctx):
         okc = reach and bool(rz) and wit is None
     ctx.check(okc, REALS, T, q, f'lost digits non-zero and {exact_p} => raise',
               'rounding with exact=True can drop digits without refusing', describe_path(wit or [], REALS))
+    # (c2) ... and only there: `exact=True` refuses a rounding that would lose digits, not a value that is representable
+    # but written with trailing zero digits (6 = 110b at two digits).  Whether digits are lost is what the split says;
+    # a refusal decided from the stored width `self.p` alone comes before it.
+    for r in raises:
+        p1 = find_path(cfg, cfg.entry, r, avoid=lambda n: n is T)
+        p2 = find_path(cfg, T, r, edge_ok=only_z)
+        ctx.check(p1 is None and p2 is None, REALS, r.ast, q, f'`{norm(r.ast)[:50]}` is reached only when lost digits are non-zero',
+                  'an exact rounding is refused without looking at the digits that would be dropped: modf(1.5) under binary32 raises for an operand stored as a binary64 '
+                  '(its significand is written with more digits than it needs)', describe_path(p1 or p2 or [], REALS))
     # (d) the flags object receives the computed values
     flags_calls = [n for n in walk_no_nested(fn) if isinstance(n, ast.Call) and call_name(n) == 'Flags']
     if not flags_calls:
@@ -1079,16 +1088,21 @@ def t6_range_predicates(ctx: Ctx):
         fn = ctx.fn(rel, f'{cls}._is_overflowing')
         body = [s for s in fn.body if not (isinstance(s, ast.Expr) and isinstance(s.value, ast.Constant))]
         bad = None
-        for neg in (True, False):
-            for v in (LO - 1, LO, LO + 1, 0, HI - 1, HI, HI + 1):
-                if neg != (v < 0) and v != 0:
-                    continue
-                env = {'x.s': neg, 'x': v, 'self.neg_maxval': LO, 'self.pos_maxval': HI}
-                k, n = outcome(body, env)
-                got = bool(ieval(n.value, env)) if k == 'return' else None  # type: ignore
-                want = v < LO if neg else v > HI
-                if got != want and bad is None:
-                    bad = f'x = {"neg_maxval" if neg else "pos_maxval"}{v - (LO if neg else HI):+d}: overflowing = {got}, expected {want}'
+        # the two bounds are given separately and need not mirror each other: [-7, 240] has its ends in different binades,
+        # so a shortcut on the exponent of the *larger* bound answers wrongly on the other side
+        for lo, hi in ((LO, HI), (-7, 240), (-240, 7)):
+            e_of = lambda v: abs(v).bit_length() - 1 if v else -10 ** 6   # noqa: E731
+            for neg in (True, False):
+                for v in (lo - 1, lo, lo + 1, 0, hi - 1, hi, hi + 1, lo * 3, hi * 3, -8, 8, -100, 100):
+                    if neg != (v < 0) and v != 0:
+                        continue
+                    env = {'x.s': neg, 'x': v, 'self.neg_maxval': lo, 'self.pos_maxval': hi, 'x.e': e_of(v), 'self.emax': max(e_of(lo), e_of(hi)),
+                           'self.pos_maxval.e': e_of(hi), 'self.neg_maxval.e': e_of(lo)}
+                    k, n = outcome(body, env)
+                    got = bool(ieval(n.value, env)) if k == 'return' else None  # type: ignore
+                    want = v < lo if neg else v > hi
+                    if got != want and bad is None:
+                        bad = f'range [{lo}, {hi}], x = {v}: overflowing = {got}, expected {want}'
         ctx.check(bad is None, rel, fn, f'{cls}._is_overflowing', 'a value overflows exactly when it lies strictly beyond the largest magnitude of its sign',
                   (bad or '') + ': the largest representable value itself would be treated as an overflow (or the first value beyond it would not)')
     # membership predicates
@@ -1181,6 +1195,8 @@ _EF = CTXDIR + 'efloat.py'
 _EXP = CTXDIR + 'exponential.py'
 
 MUTANTS = [
+    Mutant('overflow-test-skipped-below-the-top-binade', CTXDIR + 'mpb_float.py', "        \"\"\"Checks if `x` is overflowing.\"\"\"\n        if x.s:\n            return x < self.neg_maxval", "        \"\"\"Checks if `x` is overflowing.\"\"\"\n        if x.e < self.emax:\n            return False\n        if x.s:\n            return x < self.neg_maxval", 'C01.T6',
+           'seeded change C01e: with bounds [-7, 240], round(-8) is returned as -8 with no flags'),
     Mutant('underflow-follows-the-tie-rule', CTXDIR + 'exponential.py', "        nearest, direction = self.rm.to_direction(s)\n        if nearest:\n            # as with an overflow, a nearest mode takes the out-of-format end\n            # whatever its tie rule: the direction only breaks ties\n            return True\n        match direction:\n            case RoundingDirection.RTZ:\n                return True",
            "        _, direction = self.rm.to_direction(s)\n        match direction:\n            case RoundingDirection.RTZ:\n                return True", 'C01.T4',
            'finding F102 before its repair: ExpContext(3), x = 0.3 * minval: NaN under RNE, minval under RNA'),
